@@ -1,11 +1,12 @@
 (** C14 — Equality, ordering and logic obey their algebraic laws on all values.
     Only statements, closed by [exact]; the proofs live in Proofs/ValLaws.v. *)
 From Coq Require Import List ZArith NArith Bool.
-From RRSS Require Import Base.Outcome Base.Chars Base.F64 Exec.Val Exec.Ops Proofs.ValInd Proofs.ValLaws Proofs.FloatExact.
+From RRSS Require Import Base.Outcome Base.Chars Base.F64 Exec.Val Exec.Ops Proofs.ValInd Proofs.ValLaws Proofs.FloatExact Proofs.InterpWf.
+From RRSS Require Import Front.Ast Exec.Env Exec.Interp.
 Import ListNotations.
 
 (** [a is b] = [b is a], for all values whose dictionaries have distinct keys (every value the
-    interpreter can build: see [wf_val] preservation in Proofs/ValWf.v). *)
+    interpreter can build: [C14_runtime_values_wellformed] below, proved in Proofs/InterpWf.v). *)
 Theorem C14_equals_sym :
   forall a b, wf_val a -> wf_val b -> v_equals a b = v_equals b a.
 Proof. exact equals_sym. Qed.
@@ -86,8 +87,28 @@ Proof.
   cbn. repeat split; repeat constructor; cbn; intuition discriminate.
 Qed.
 
+(** The side condition of the first two laws is met by every value a program can compute: the
+    interpreter keeps every variable and every result well formed, from the initial environment on
+    ([env_init_wf]), so in a run equality is symmetric without qualification. *)
+Theorem C14_runtime_values_wellformed :
+  forall prof f x e a e1, wf_env e -> produce_expr prof f x e = XOk a e1 -> wf_val a /\ wf_env e1.
+Proof. exact produce_expr_wf. Qed.
+
+Theorem C14_program_states_wellformed :
+  forall prof fuel p c, WInv wf_x (exec_program prof fuel p c).
+Proof. exact exec_program_wf. Qed.
+
+Theorem C14_runtime_equality_symmetric :
+  forall prof f1 f2 x y e a e1 b e2,
+  wf_env e -> produce_expr prof f1 x e = XOk a e1 -> produce_expr prof f2 y e1 = XOk b e2 ->
+  v_equals a b = v_equals b a /\ binop_apply OpEq a b = binop_apply OpEq b a.
+Proof. exact runtime_equality_symmetric. Qed.
+
+
 Print Assumptions C14_equals_sym.
 Print Assumptions C14_compare_swap.
 Print Assumptions C14_leq_and_geq_is_equals.
 
 Print Assumptions C14_build_knock_restores_int.
+Print Assumptions C14_runtime_equality_symmetric.
+Print Assumptions C14_program_states_wellformed.
